@@ -417,6 +417,29 @@ def install(ctx):
             return h(ip)
         return NotImplemented
 
+    @M.reg('mem::take')
+    def mem_take(ip, pc, args, dt):
+        loc = args[0].loc
+        old = read_loc(loc)
+        i = pc['raw'].index('take::<') + 5
+        r = yield from ip.call('<%s as Default>::default' % _generic_arg(pc['raw'][i:]), [], dt)
+        write_loc(loc, r)
+        return old
+
+    @M.reg('mem::replace')
+    def mem_replace(ip, pc, args, dt):
+        loc = args[0].loc
+        old = read_loc(loc)
+        write_loc(loc, args[1])
+        return old
+
+    @M.reg('mem::swap')
+    def mem_swap(ip, pc, args, dt):
+        a, b = read_loc(args[0].loc), read_loc(args[1].loc)
+        write_loc(args[0].loc, b)
+        write_loc(args[1].loc, a)
+        return UNIT
+
     @M.reg('must_use', 'hint::must_use', 'convert::identity', 'black_box')
     def identity(ip, pc, args, dt):
         return args[0]
